@@ -4,7 +4,7 @@
    Values are int64: equalities are modulo 2^64 (wrap64), exactly what Go's += computes. *)
 From Coq Require Import List NArith ZArith Bool.
 From Coq Require Import Permutation.
-From Qryn Require Import model.Pprof model.ProfTree model.ProfDiff model.ProfSql proofs.PprofProofs proofs.ProfTreeProofs proofs.ProfSqlProofs proofs.ProfDiffProofs.
+From Qryn Require Import model.Pprof model.ProfTree model.ProfDiff model.ProfSql proofs.PprofProofs proofs.ProfTreeProofs proofs.ProfSqlProofs proofs.ProfDiffProofs proofs.ProfNestProofs.
 Import ListNotations.
 Open Scope Z_scope.
 
@@ -284,6 +284,32 @@ Theorem levels_nest : forall t : mtree, tree_good t -> root_total t < two63 ->
   exists ls, bfs t = [root_bar (root_total t)] :: ls /\ nest_levels [root_bar (root_total t)] ls.
 Proof. exact levels_nest_proof. Qed.
 Print Assumptions levels_nest.
+
+(* From ingest to the nested flame graph, no hypothesis on the merged tree left.  Any list of ingested profiles whose
+   node ids determine the parent JOINTLY (no collision inside or between the profiles: all_triples), read on a sample
+   type whose values are non-negative, with the sum of value x stack depth over everything read below 2^63 (so no int64
+   sum can wrap); the stored rows handed to MergeTrie in ANY order, raw or grouped by the statement (group_rows): the
+   merged tree meets tree_good, hence level 0 is [0, total) and every bar of every level lies inside the bar of its
+   parent one level up (nest_levels). *)
+Theorem flamegraph_nests_from_ingest : forall (h : N -> N -> N) (na : N) (limit : Z) (Ps : list stored) (rows : list row) (fs : list (N * Z)),
+  let R := concat (map (stored_rows h na) Ps) in
+  parent_determined h (all_triples h na Ps) ->
+  Forall sel_ok Ps ->
+  sumZ (map (prof_depth_weight na) Ps) < two63 ->
+  Forall (fun P => 0 <= prof_depth_weight na P) Ps ->
+  Permutation rows R \/ Permutation rows (group_rows R) ->
+  Z.of_nat (length rows) <= limit ->
+  let t := merge_trie limit new_tree rows fs in
+  tree_good t /\ root_total t < two63 /\
+  exists ls, bfs t = [root_bar (root_total t)] :: ls /\ nest_levels [root_bar (root_total t)] ls.
+Proof. exact ingest_to_nested_levels. Qed.
+Print Assumptions flamegraph_nests_from_ingest.
+
+Example flamegraph_nests_from_ingest_applies :
+  parent_determined city16 (all_triples city16 0%N ex_Ps) /\ Forall sel_ok ex_Ps /\
+  sumZ (map (prof_depth_weight 0%N) ex_Ps) < two63 /\ Forall (fun P => 0 <= prof_depth_weight 0%N P) ex_Ps /\
+  length (concat (map (stored_rows city16 0%N) ex_Ps)) = 12%nat.
+Proof. exact ex_Ps_hypotheses. Qed.
 
 (* the same for every tree accepted by the boolean tree_regular (distinct parent keys and node ids, ids <> 0,
    self, total >= 0, exact conservation, root total < 2^63) -- the precondition the check evaluates on the
